@@ -30,7 +30,7 @@ Definition guard_obligations : list (string * bool) :=
    ("packet GenesisState.Validate rejects a commitment without data (store.Set panics on a nil value)",
     existsb (forced (ABelow (KLen "Data") 1)) packet_genesis_commitment_guards);
    ("every field the guards mention is supplied by the model",
-    (let hd0 := {| hd_height := mkH 0 0; hd_extra_len := 0; hd_mix := []; hd_uncle := []; hd_diff := [];
+    (let hd0 := {| hd_height := mkH 0 0; hd_extra_len := 0; hd_mix := []; hd_uncle := []; hd_root := []; hd_diff := [];
                    hd_bloom_len := 0; hd_nonce_len := 0; hd_gas_limit := 0; hd_gas_used := 0 |} in
      guards_known (bsc_client_env hd0 0 0 0) bsc_client_validate_guards
      && guards_known (header_env hd0) bsc_ecrecover_guards
@@ -57,10 +57,10 @@ Record xstep_obs := {
   xo_post : option xpost       (* None for relayer proposals *)
 }.
 
-Record xcase := { xc_now : N; xc_steps : list xstep_obs }.
+Record xcase := { xc_now : N; xc_native : bytes; xc_steps : list xstep_obs }.
 
 Definition cons_code (c : cons_state) : N * N :=
-  match c with ConsTM _ => (1, 0) | ConsBSC ts => (2, ts) | ConsETH ts => (3, ts) | ConsTSS => (4, 0) | ConsGarbage => (5, 0) end.
+  match c with ConsTM _ => (1, 0) | ConsBSC ts => (2, ts) | ConsETH ts _ => (3, ts) | ConsTSS => (4, 0) | ConsGarbage => (5, 0) end.
 
 Definition ctype_code (t : option ctype) : N :=
   match t with None => 0 | Some TTM => 1 | Some TBSC => 2 | Some TETH => 3 | Some TTSS => 4 end.
@@ -83,7 +83,7 @@ Definition head_strict : bool := true.
 
 (** Model vs implementation.  Kinds: 1 validation class, 2 execution class, 3 projected state,
     4 executed although not validated. *)
-Fixpoint cmp_xsteps (now : N) (i : nat) (s : xstate) (l : list xstep_obs) : list (nat * nat) :=
+Fixpoint cmp_xsteps (now : N) (native : bytes) (i : nat) (s : xstate) (l : list xstep_obs) : list (nat * nat) :=
   match l with
   | [] => []
   | o :: l' =>
@@ -91,17 +91,17 @@ Fixpoint cmp_xsteps (now : N) (i : nat) (s : xstate) (l : list xstep_obs) : list
       let v := oclass (xprop_validate p) in
       if negb (Nat.eqb v (xo_v o)) then [(i, 1%nat)]
       else if negb (Nat.eqb v 0) then
-        (if Nat.eqb (xo_x o) 9 then cmp_xsteps now (S i) s l' else [(i, 4%nat)])
+        (if Nat.eqb (xo_x o) 9 then cmp_xsteps now native (S i) s l' else [(i, 4%nat)])
       else
-        let r := handle_xprop now head_strict s p in
+        let r := handle_xprop now head_strict native s p in
         if negb (Nat.eqb (oclass r) (xo_x o)) then [(i, 2%nat)]
-        else match gov_exec (handle_xprop now head_strict) s p with
+        else match gov_exec (handle_xprop now head_strict native) s p with
              | Panic => []
              | Err => []
              | Ok s' =>
                  match xo_post o with
-                 | Some post => if post_matches (xget s' (xo_chain o)) post then cmp_xsteps now (S i) s' l' else [(i, 3%nat)]
-                 | None => cmp_xsteps now (S i) s' l'
+                 | Some post => if post_matches (xget s' (xo_chain o)) post then cmp_xsteps now native (S i) s' l' else [(i, 3%nat)]
+                 | None => cmp_xsteps now native (S i) s' l'
                  end
              end
   end.
@@ -130,10 +130,10 @@ Definition cmp_gen (vm xm : nat) (v x : nat) : list (nat * nat) :=
 
 Definition cmp_case (c : hcase) : list (nat * nat) :=
   match c with
-  | CX c => cmp_xsteps (xc_now c) 0 [] (xc_steps c)
+  | CX c => cmp_xsteps (xc_now c) (xc_native c) 0 [] (xc_steps c)
   | CGX g v x now steps =>
       match cmp_gen (oclass (gx_validate g)) (oclass (gx_init g)) v x with
-      | [] => if Nat.eqb v 0 && Nat.eqb x 0 then cmp_xsteps now 1 (gx_state g) steps else []
+      | [] => if Nat.eqb v 0 && Nat.eqb x 0 then cmp_xsteps now (gx_native g) 1 (gx_state g) steps else []
       | l => l
       end
   | CGA l v x => cmp_gen (oclass (ga_validate l)) (oclass (ga_init l)) v x
